@@ -1170,6 +1170,13 @@ Octagonal_Shape<T>::concatenate_assign(const Octagonal_Shape& y) {
   // (where they are at the present) and placing the constraints of `y' in the
   // lower right-hand side.
   add_space_dimensions_and_embed(y.space_dim);
+  // The concatenation with an empty octagon is empty
+  // (the matrix of an octagon marked empty is meaningless).
+  if (y.marked_empty()) {
+    set_empty();
+    PPL_ASSERT(OK());
+    return;
+  }
   typename OR_Matrix<N>::const_element_iterator
     y_it = y.matrix.element_begin();
   for (typename OR_Matrix<N>::row_iterator
